@@ -33,6 +33,13 @@ ALLOWED_CLASSES = {
     "ampform.kinematics.angles.Phi",
     "ampform.kinematics.angles.Theta",
     "ampform.kinematics.lorentz.ArraySize",
+    "ampform.kinematics.lorentz.BoostMatrix",
+    "ampform.kinematics.lorentz.NegativeMomentum",
+    "ampform.kinematics.phasespace.Kallen",
+    "ampform.sympy._array_expressions.ArraySlice",
+    "ampform.sympy._array_expressions.MatrixMultiplication",
+    "sympy.codegen.ast.NoneToken",
+    "sympy.functions.elementary.trigonometric.acos",
     "ampform.kinematics.lorentz.BoostZMatrix",
     "ampform.kinematics.lorentz.Energy",
     "ampform.kinematics.lorentz.EuclideanNorm",
@@ -443,6 +450,14 @@ def _configs():
         ("lc_pkpi_hel/scalar+stable+bw", "lc_pkpi_hel", {"scalar": True, "stable": [0, 1, 2], "dyn": plain_bw}),
         ("d0_kkk_can/bw_ff", "d0_kkk_can", {"dyn": create_relativistic_breit_wigner_with_ff}),
         ("lc_pkpi_hel/couplings", "lc_pkpi_hel", {"couplings": True}),
+        # aligned models: the intensity itself contains Wigner functions of kinematic variables; with the
+        # Dalitz-plot decomposition + stable ids + scalar initial mass the kinematic-variable DEFINITIONS
+        # (zeta angles) contain the mass parameters
+        ("lc_pkpi_hel/dpd+stable123+scalar", "lc_pkpi_hel", {"align": "dpd", "stable": [1, 2, 3], "scalar": True}),
+        ("lc_pkpi_hel/axisangle", "lc_pkpi_hel", {"align": "axisangle"}),
+        ("jpsi_3pi_hel/dpd+stable123+scalar+bw+couplings", "jpsi_3pi_hel",
+         {"align": "dpd", "stable": [1, 2, 3], "scalar": True, "dyn": plain_bw, "couplings": True}),
+        ("jpsi_3pi_hel/axisangle", "jpsi_3pi_hel", {"align": "axisangle"}),
     ]
 
 
@@ -458,7 +473,17 @@ def load_real_models() -> list[tuple[str, object]]:
     out = []
     for label, rname, kw in _configs():
         r = load_reaction(rname)
+        if kw.get("align") == "dpd":
+            from ampform.helicity.align.dpd import DalitzPlotDecomposition, relabel_edge_ids
+
+            r = relabel_edge_ids(r)
         b = ampform.get_builder(r)
+        if kw.get("align") == "dpd":
+            b.config.spin_alignment = DalitzPlotDecomposition(1)
+        elif kw.get("align") == "axisangle":
+            from ampform.helicity.align.axisangle import AxisAngleAlignment
+
+            b.config.spin_alignment = AxisAngleAlignment()
         if kw.get("stable") is not None:
             b.config.stable_final_state_ids = kw["stable"]
         if kw.get("scalar"):
